@@ -179,31 +179,55 @@ func (e *Exec) modelFor(extra *Term) (string, map[string]string) {
 		nice := append([]*Term(nil), e.nice...)
 		// prefer models in which document keys are not the same abstract element as a body /
 		// xattr value (they are concretised differently)
+		// different roles (keys, bodies, xattr blobs, inputs) are concretised differently: prefer
+		// models in which they are different abstract elements
+		var blobIn []inputRec
 		for _, a := range e.inputs {
-			if a.T.S.K != KBlob || !(strings.HasSuffix(a.Name, ".key") || strings.HasPrefix(a.Name, "in_key")) {
-				continue
+			if a.T.S.K == KBlob {
+				blobIn = append(blobIn, a)
 			}
-			for _, b := range e.inputs {
-				if b.T.S.K == KBlob && !(strings.HasSuffix(b.Name, ".key") || strings.HasPrefix(b.Name, "in_key")) {
+		}
+		isKey := func(n string) bool { return strings.HasSuffix(n, ".key") || strings.HasPrefix(n, "in_key") }
+		for i, a := range blobIn {
+			for _, b := range blobIn[i+1:] {
+				if isKey(a.Name) && isKey(b.Name) {
+					continue // equality of keys is what selects rows
+				}
+				if len(nice) < 80 {
 					nice = append(nice, tNe(a.T, b.T))
 				}
 			}
 		}
 		if len(nice) > 0 {
-			// prefer a replay-friendly model (does not affect the verdict)
-			e.solver.Push()
+			// prefer a replay-friendly model (does not affect the verdict): preferences are
+			// added greedily, each kept only if the path stays satisfiable
+			kept := 0
 			for _, n := range nice {
+				if n.IsConst() {
+					continue
+				}
+				e.solver.Push()
 				e.solver.Assert(n)
+				if e.solver.Check() == "sat" {
+					kept++
+				} else {
+					e.solver.Pop()
+				}
 			}
-			if e.solver.Check() == "sat" {
-				m := e.model()
-				e.solver.Pop()
-				return r, m
-			}
-			e.solver.Pop()
 			if e.solver.Check() != "sat" {
-				return "unknown", nil
+				for ; kept > 0; kept-- {
+					e.solver.Pop()
+				}
+				if e.solver.Check() != "sat" {
+					return "unknown", nil
+				}
+				return r, e.model()
 			}
+			m := e.model()
+			for ; kept > 0; kept-- {
+				e.solver.Pop()
+			}
+			return r, m
 		}
 		return r, e.model()
 	}
